@@ -41,6 +41,8 @@ CONSTANTS Kind,       \* "value" | "command" | "supply" | "demand" | "map"
           Remotes,    \* remote ids that may ask to sync
           MaxSyncQ,   \* bound on the length of a sync_queue (value-like lanes; a remote may ask again before it is answered)
           MaxFifo,    \* bound on a supply lane's event_queue
+          Vias,       \* the ways a call may arrive: subset of {"cmd", "h", "replace", "direct"} (they differ in the code path
+                      \* exercised on the real lane, not in their effect on the state: one of them is enough for B3)
           Ghost,      \* maintain P's ghost state
           AllowF12,   \* P's deviation for known finding F12 (a negative control runs with FALSE)
           MaxLag      \* with Ghost: state constraint LagBound
@@ -348,19 +350,19 @@ Init ==
     /\ lastAct = [k |-> "init"]
 
 \* (named cases so that TLC's coverage report shows each of them)
-VSetCmd(v) == VSet("cmd", v)
-VSetHandler(v) == VSet("h", v)
-VReplace(v) == VSet("replace", v)
-CCommandCmd(v) == CCommand("cmd", v)
-CCommandHandler(v) == CCommand("h", v)
-MUpdateCmd(c, v) == MUpdate("cmd", c, v)
-MUpdateHandler(c, v) == MUpdate("h", c, v)
-MRemoveCmd(c) == MRemove("cmd", c)
-MRemoveHandler(c) == MRemove("h", c)
-MClearCmd == MClear("cmd")
-MClearHandler == MClear("h")
-MTransformHandler(c, to) == MTransform("h", c, to)
-MTransformDirect(c, to) == MTransform("direct", c, to)
+VSetCmd(v) == "cmd" \in Vias /\ VSet("cmd", v)
+VSetHandler(v) == "h" \in Vias /\ VSet("h", v)
+VReplace(v) == "replace" \in Vias /\ VSet("replace", v)
+CCommandCmd(v) == "cmd" \in Vias /\ CCommand("cmd", v)
+CCommandHandler(v) == "h" \in Vias /\ CCommand("h", v)
+MUpdateCmd(c, v) == "cmd" \in Vias /\ MUpdate("cmd", c, v)
+MUpdateHandler(c, v) == "h" \in Vias /\ MUpdate("h", c, v)
+MRemoveCmd(c) == "cmd" \in Vias /\ MRemove("cmd", c)
+MRemoveHandler(c) == "h" \in Vias /\ MRemove("h", c)
+MClearCmd == "cmd" \in Vias /\ MClear("cmd")
+MClearHandler == "h" \in Vias /\ MClear("h")
+MTransformHandler(c, to) == "h" \in Vias /\ MTransform("h", c, to)
+MTransformDirect(c, to) == "direct" \in Vias /\ MTransform("direct", c, to)
 MTake(n) == MTakeDrop("take", n)
 MDrop(n) == MTakeDrop("drop", n)
 
